@@ -12,6 +12,20 @@ namespace {
 typedef std::tuple<int, int, int> V3;
 const int NCHUNK = 16;
 
+// the same triple stored as 64-bit, 16-bit or big-endian integers (what other writers of the format produce): the attribute is re-created
+bool stamp_version_as(const std::string &path, const V3 &v, int kind) {
+    long long vals[3] = {std::get<0>(v), std::get<1>(v), std::get<2>(v)};
+    if (kind == 2) for (long long x : vals) if (x < -32768 || x > 32767) return false;
+    hid_t f = H5Fopen(path.c_str(), H5F_ACC_RDWR, H5P_DEFAULT); if (f < 0) return false;
+    hid_t ft = kind == 1 ? H5T_STD_I64LE : kind == 2 ? H5T_STD_I16LE : H5T_STD_I32BE; hsize_t dims[1] = {3}; hid_t sp = H5Screate_simple(1, dims, nullptr);
+    bool ok = H5Adelete(f, "version") >= 0; hid_t a = ok ? H5Acreate2(f, "version", ft, sp, H5P_DEFAULT, H5P_DEFAULT) : -1;
+    if (a >= 0) { ok = H5Awrite(a, H5T_NATIVE_LLONG, vals) >= 0; H5Aclose(a); } else ok = false;
+    H5Sclose(sp); H5Fclose(f); return ok;
+}
+bool restore_version_attr(const std::string &path) {   // back to the library's own storage type
+    hid_t f = H5Fopen(path.c_str(), H5F_ACC_RDWR, H5P_DEFAULT); if (f < 0) return false; hsize_t dims[1] = {3}; hid_t sp = H5Screate_simple(1, dims, nullptr);
+    bool ok = H5Adelete(f, "version") >= 0; hid_t a = ok ? H5Acreate2(f, "version", H5T_STD_I32LE, sp, H5P_DEFAULT, H5P_DEFAULT) : -1; int z[3] = {0, 0, 0}; if (a >= 0) { ok = H5Awrite(a, H5T_NATIVE_INT, z) >= 0; H5Aclose(a); } else ok = false; H5Sclose(sp); H5Fclose(f); return ok;
+}
 bool stamp_version(const std::string &path, const V3 &v) {
     hid_t f = H5Fopen(path.c_str(), H5F_ACC_RDWR, H5P_DEFAULT); if (f < 0) return false;
     hid_t a = H5Aopen(f, "version", H5P_DEFAULT); bool ok = false;
@@ -66,6 +80,19 @@ void gate_case(Ctx &c, int chunk) {
             c.check(opened == expect, "C10/gate/" + cls + (expect ? "/refused" : "/accepted"), [&] { return "file version " + vs(v) + ", library " + vs(lib) + ", " + cls + ": " + (opened ? "opened" : "refused (" + exc.substr(0, 100) + ")") + ", expected " + (expect ? "open" : "refusal"); });
             c.count("opens"); c.count("opens_beside_holder");
         }
+        // the decision depends on the triple, not on the integer type it is stored with
+        if (i % 3 == 0) for (int kind = 1; kind <= 3; kind++) for (int mode = 0; mode < 2; mode++) {
+            if (!stamp_version_as(path, v, kind)) { c.count("storage_type_not_applicable"); continue; }
+            FileMode fm = mode == 0 ? FileMode::ReadOnly : FileMode::ReadWrite; bool expect = mode == 0 ? can_read : can_write;
+            std::string cls = std::string(mode == 0 ? "ReadOnly" : "ReadWrite") + (kind == 1 ? "/stored-as-int64" : kind == 2 ? "/stored-as-int16" : "/stored-as-int32-big-endian");
+            c.op("open " + cls + " | file version " + vs(v) + " library " + vs(lib));
+            bool opened = false; std::string exc; std::vector<int> echoed;
+            try { File f = File::open(path, fm); opened = f.isOpen(); echoed = f.version(); f.close(); } catch (std::exception &e) { exc = e.what(); }
+            c.check(opened == expect, "C10/gate/" + cls + (expect ? "/refused" : "/accepted"), [&] { return "file version " + vs(v) + ", library " + vs(lib) + ", " + cls + ": " + (opened ? "opened" : "refused (" + exc.substr(0, 100) + ")") + ", expected " + (expect ? "open" : "refusal"); });
+            if (opened) c.check(echoed.size() == 3 && V3(echoed[0], echoed[1], echoed[2]) == v, "C10/version-echo/" + cls, "file.version() does not echo the stored triple");
+            c.count("opens"); c.count("opens_other_storage_type");
+        }
+        if (i % 3 == 0 && !restore_version_attr(path)) c.check(false, "C10/harness/stamp-failed", "could not restore the version attribute");
         // Overwrite always yields a fresh file at the library version
         for (int force = 0; force < 2; force++) {
             if (i % 5 != (size_t)force) continue;   // (destroys the content: done for a fifth of the triples each)
